@@ -26,6 +26,7 @@ struct Shared { log: Vec<String>, slog: Vec<String>, invocations: usize, fail_at
 struct HData { idx: usize, ops: String, sh: *const RefCell<Shared> }
 #[repr(C)]
 struct RawStr { data: *const c_char, len: size_t }
+thread_local! { static BAD: RefCell<Vec<String>> = RefCell::new(vec![]); }
 
 fn sh<'a>(d: *mut c_void) -> (&'a HData, &'a RefCell<Shared>) { let h = unsafe { &*(d as *const HData) }; (h, unsafe { &*h.sh }) }
 /// owned C string -> bytes (None for NULL), freed through the API
@@ -36,6 +37,8 @@ fn take_str(s: Str) -> Option<Vec<u8>> {
     out
 }
 fn opt(o: Option<Vec<u8>>) -> String { match o { None => "-".into(), Some(s) => format!("={}", hex(&s)) } }
+/// a string accessor for something that exists: NULL is a contract violation of the C layer (it means "absent")
+fn must(o: Option<Vec<u8>>) -> String { match o { None => "NULL".into(), Some(s) => hex(&s) } }
 fn invoke(s: &RefCell<Shared>) -> bool { let mut s = s.borrow_mut(); s.invocations += 1; s.fail_at == Some(s.invocations) }
 fn cchunk(s: &str) -> (Vec<u8>, bool) { (unhex(&s[1..]), s.starts_with('h')) }
 fn p(b: &[u8]) -> (*const c_char, size_t) { (b.as_ptr() as *const c_char, b.len()) }
@@ -49,9 +52,18 @@ fn attrs(el: *mut Element, with_locs: bool) -> String {
     loop {
         let a = unsafe { lol_html_attributes_iterator_next(it) };
         if a.is_null() { break; }
-        let n = take_str(unsafe { lol_html_attribute_name_get_preserve_case(a) }).unwrap_or_default();
-        let val = take_str(unsafe { lol_html_attribute_value_get(a) }).unwrap_or_default();
-        v.push(format!("{}={}{}", hex(&n), hex(&val), if with_locs { "@?/?" } else { "" }));
+        let n = take_str(unsafe { lol_html_attribute_name_get_preserve_case(a) });
+        let val = take_str(unsafe { lol_html_attribute_value_get(a) });
+        // cross-check the by-name accessors: an attribute the iterator lists exists, so get_attribute is non-NULL and has_attribute is 1
+        if let Some(nb) = &n {
+            if std::str::from_utf8(nb).is_ok() && !nb.is_empty() {
+                let (d, l) = p(nb);
+                let got = take_str(unsafe { lol_html_element_get_attribute(el, d, l) });
+                let has = unsafe { lol_html_element_has_attribute(el, d, l) };
+                if got.is_none() || has != 1 { BAD.with(|b| b.borrow_mut().push(format!("attribute {} is listed by the iterator but get_attribute is {} and has_attribute is {}", hex(nb), if got.is_none() { "NULL" } else { "set" }, has))); }
+            }
+        }
+        v.push(format!("{}={}{}", must(n), must(val), if with_locs { "@?/?" } else { "" }));
     }
     unsafe { lol_html_attributes_iterator_free(it) };
     v.join(",")
@@ -60,7 +72,7 @@ fn attrs(el: *mut Element, with_locs: bool) -> String {
 unsafe extern "C" fn c_et(t: *mut EndTag, ud: *mut c_void) -> RewriterDirective {
     let (h, s) = sh(ud);
     let loc = unsafe { lol_html_end_tag_source_location_bytes(t) };
-    let tok = format!("E {}..{} {}", loc.start, loc.end, hex(&take_str(unsafe { lol_html_end_tag_name_get_preserve_case(t) }).unwrap_or_default()));
+    let tok = format!("E {}..{} {}", loc.start, loc.end, must(take_str(unsafe { lol_html_end_tag_name_get_preserve_case(t) })));
     let f = invoke(s);
     s.borrow_mut().log.push(format!("H et {} r= a=- | {tok}", h.idx));
     if f { return RewriterDirective::Stop; }
@@ -91,7 +103,7 @@ unsafe extern "C" fn c_write_all(sink: &mut CStreamingHandlerSink<'_>, ud: *mut 
 unsafe extern "C" fn c_el(el: *mut Element, ud: *mut c_void) -> RewriterDirective {
     let (h, s) = sh(ud);
     let loc = unsafe { lol_html_element_source_location_bytes(el) };
-    let tok = format!("S {}..{} {} {} [{}] {}", loc.start, loc.end, hex(&take_str(unsafe { lol_html_element_tag_name_get_preserve_case(el) }).unwrap_or_default()),
+    let tok = format!("S {}..{} {} {} [{}] {}", loc.start, loc.end, must(take_str(unsafe { lol_html_element_tag_name_get_preserve_case(el) })),
         ns_name(el), attrs(el, true), unsafe { lol_html_element_is_self_closing(el) });
     if invoke(s) { s.borrow_mut().log.push(format!("H el {} r= a=- | {tok}", h.idx)); return RewriterDirective::Stop; }
     let mut res = String::new();
@@ -127,14 +139,14 @@ unsafe extern "C" fn c_el(el: *mut Element, ud: *mut c_void) -> RewriterDirectiv
         };
         res.push(if ok { 'k' } else { 'e' });
     }
-    let after = format!("{}[{}]", hex(&take_str(unsafe { lol_html_element_tag_name_get_preserve_case(el) }).unwrap_or_default()), attrs(el, false));
+    let after = format!("{}[{}]", must(take_str(unsafe { lol_html_element_tag_name_get_preserve_case(el) })), attrs(el, false));
     s.borrow_mut().log.push(format!("H el {} r={res} a={after} | {tok}", h.idx));
     RewriterDirective::Continue
 }
 unsafe extern "C" fn c_cm(c: *mut Comment, ud: *mut c_void) -> RewriterDirective {
     let (h, s) = sh(ud);
     let loc = unsafe { lol_html_comment_source_location_bytes(c) };
-    let tok = format!("C {}..{} {}", loc.start, loc.end, hex(&take_str(unsafe { lol_html_comment_text_get(c) }).unwrap_or_default()));
+    let tok = format!("C {}..{} {}", loc.start, loc.end, must(take_str(unsafe { lol_html_comment_text_get(c) })));
     if invoke(s) { s.borrow_mut().log.push(format!("H cm {} r= a=- | {tok}", h.idx)); return RewriterDirective::Stop; }
     let mut res = String::new();
     for o in h.ops.split(',').filter(|o| !o.is_empty()) {
@@ -303,6 +315,7 @@ pub fn run_case(line: &str) {
         unsafe { lol_html_rewriter_free(rw) };
     }
     if !early_free { free_builder(builder, &selectors); }
+    for b in BAD.with(|b| b.borrow_mut().drain(..).collect::<Vec<_>>()) { shared.borrow_mut().bad.push(b); }
     for b in shared.borrow().bad.iter().take(3) { outln!("X capi-bad {b}"); }
     let keep: Vec<*mut HData> = shared.borrow_mut().keep.drain(..).collect();
     for d in keep { drop(unsafe { Box::from_raw(d) }); }
